@@ -40,6 +40,7 @@ type w13Conn struct {
 }
 
 type w13Case struct {
+	Shape string    `json:"shape,omitempty"` // generator's case shape (informational)
 	Conns []w13Conn `json:"conns"`
 }
 
@@ -714,6 +715,33 @@ func w13ProbeWatchdog() time.Duration {
 	return time.Duration(vEnvInt("VERIF_C13_PROBE_MS", 20000)) * time.Millisecond
 }
 
+// heldValues counts the held keys that carry a stored value (statistics only; unsynchronised reads of a
+// quiescent instance: the connection has ended).
+func (in *w13Instance) heldValues() (held int, props int) {
+	look := func(m *LockManager) {
+		if m == nil || m.locked == 0 || m.currentData == nil {
+			return
+		}
+		if d := m.currentData.GetData(); d != nil {
+			held++
+			if len(d) >= 6 && d[5]&protocol.LOCK_DATA_FLAG_CONTAINS_PROPERTY != 0 {
+				props++
+			}
+		}
+	}
+	for _, db := range in.allDbs() {
+		for i := range db.fastLocks {
+			look(db.fastLocks[i].manager)
+		}
+		db.mGlock.RLock()
+		for _, m := range db.locks {
+			look(m)
+		}
+		db.mGlock.RUnlock()
+	}
+	return
+}
+
 func w13SettleTime() time.Duration {
 	return time.Duration(vEnvInt("VERIF_C13_SETTLE_MS", 400)) * time.Millisecond
 }
@@ -944,6 +972,9 @@ type w13ConnInfo struct {
 	Reads    int
 	Finished bool
 	Released int // rounds of forced time-outs that were needed to end the handler
+
+	HeldValues int // held keys with a stored value after the connection ended
+	HeldProps  int // ... whose stored value has the property flag
 }
 
 type w13Info struct {
@@ -1043,6 +1074,7 @@ func w13RunCase(c *w13Case) (info w13Info, fail *w13Failure) {
 		} else if len(data) > 0 {
 			ci.Proto = "text"
 		}
+		ci.HeldValues, ci.HeldProps = in.heldValues()
 		info.Conns = append(info.Conns, ci)
 		if l := c.Conns[i].Linger; l > 0 {
 			if l > 5000 {
